@@ -191,7 +191,7 @@ func runC09Body(ctx0 *ev.Ctx, c c09Case) {
 	db := overlaydb.NewMemDB(64, 4) // small capacities: force buffer growth
 	model := map[string][]byte{}
 	wasTomb := map[string]bool{} // keys that are currently tombstones (for the non-trivial rule)
-	modelSize := 0 // sum of key+value lengths of the model's entries, maintained incrementally
+	modelSize := 0               // sum of key+value lengths of the model's entries, maintained incrementally
 	set := func(k, v []byte) {
 		if old, ok := model[string(k)]; ok {
 			modelSize -= len(k) + len(old)
